@@ -93,11 +93,60 @@ def paths(extra=()):
         for e in exts:
             for variant in {e, e.upper(), e.capitalize()}:
                 out.append(f"{s}.{variant}" if e != "" else s)
+    # caseless / normalising mappings other than str.lower(): per extension one spelling per mapping in which a letter is replaced
+    # by a non-ASCII character that the mapping (and, for the 'lower' family, str.lower itself) sends onto it -- whatever notion of
+    # "same extension" an entry point uses, both entry points must use the same one
+    for e in exts:
+        for variant in _fold_variants(e):
+            out += [f"report.{variant}", f"d.d/N {variant}.{variant}"]
     # forms a path library would rewrite (trailing separators, '.' / '..' components, doubled separators, Windows separators,
     # surrounding blanks): the router works on the raw string, so must everything that claims to be the router
     for n in ("report.pdf", "Notes.DOCX", "bundle.tar.gz", "a.txt", "x.weird", "tool.exe", "noext", "a.c07m0"):
         out += [f"{n}/", f"{n}//", f"{n}/.", f"{n}/..", f"./{n}", f"d/../{n}", f"d//{n}", f"{n}/x", f"{n}\\", f"d\\{n}", f" {n} ", f"{n}?v=1", f"{n}#frag",
                 f"file:///tmp/{n}", f"~/{n}", f"{n}/./"]
+    return out
+
+
+_FOLDS = {}
+
+
+def _fold_table():
+    """{mapping name: {ASCII letter: first non-ASCII character the mapping sends onto exactly that letter}} computed from the
+    interpreter's Unicode database (lower, casefold, upper-then-lower, NFKC, NFKD without combining marks)"""
+    if _FOLDS:
+        return _FOLDS
+    import unicodedata
+    maps = {
+        "lower": str.lower,
+        "casefold": str.casefold,
+        "upper-lower": lambda c: c.upper().lower(),
+        "nfkc": lambda c: unicodedata.normalize("NFKC", c).lower(),
+        "nfkd-stripped": lambda c: "".join(x for x in unicodedata.normalize("NFKD", c) if not unicodedata.combining(x)).lower(),
+    }
+    letters = set("abcdefghijklmnopqrstuvwxyz0123456789")
+    for name in maps:
+        _FOLDS[name] = {}
+    for cp in range(0x80, 0x20000):
+        c = chr(cp)
+        for name, f in maps.items():
+            try:
+                t = f(c)
+            except Exception:  # noqa
+                continue
+            if t in letters and t not in _FOLDS[name]:
+                _FOLDS[name][t] = c
+    return _FOLDS
+
+
+def _fold_variants(ext):
+    out = []
+    for name, tab in _fold_table().items():
+        for i, ch in enumerate(ext.lower()):
+            if ch in tab:
+                v = ext[:i] + tab[ch] + ext[i + 1:]
+                if v not in out:
+                    out.append(v)
+                break
     return out
 
 
@@ -223,7 +272,11 @@ def archive_wrappers():
         _clear_caches()
         for p in paths():
             if sup_c is not None:
-                got, want = sup_c(p), r.is_supported_file(p)
+                want = r.is_supported_file(p)
+                try:
+                    got = sup_c(p)
+                except Exception as e:  # noqa
+                    got = f"raises {type(e).__name__}"
                 if got != want:
                     return ({"filename": p, "mimetypes": cname}, f"router.is_supported_file({p!r}) = {want}", f"_is_supported_file_cached -> {got}",
                             "archive_extractor.py::_is_supported_file_cached")
@@ -243,8 +296,11 @@ def archive_wrappers():
             for name in member_names() + paths()[::7]:
                 b = os.path.basename(name)
                 want = b.startswith(".") or name.startswith("__MACOSX/") or not r.is_supported_file(b) or b.lower().endswith(nested)
-                got = skip(name, b)
-                if bool(got) != bool(want):
+                try:
+                    got = skip(name, b)
+                except Exception as e:  # noqa
+                    got = f"raises {type(e).__name__}"
+                if isinstance(got, str) or bool(got) != bool(want):
                     return ({"filename": name, "basename": b, "mimetypes": cname},
                             f"skipped = hidden | __MACOSX/ | not is_supported_file({b!r}) | nested archive = {want}", f"_should_skip_file -> {got}",
                             "archive_extractor.py::_should_skip_file")
@@ -261,16 +317,16 @@ def archive_members():
     names = member_names()
     read_archive = a.read_archive            # the real entry point (taken before the registry functions are replaced)
 
-    def build(kind, group):
+    def build(kind, group, content=None):
         buf = io.BytesIO()
         if kind == "zip":
             with zipfile.ZipFile(buf, "w") as zf:
                 for n in group:
-                    zf.writestr(n, b"member " + n.encode())
+                    zf.writestr(n, b"member " + n.encode() if content is None else content)
         else:
             with tarfile.open(fileobj=buf, mode="w:gz" if kind == "tar.gz" else "w") as tf:
                 for n in group:
-                    data = b"member " + n.encode()
+                    data = b"member " + n.encode() if content is None else content
                     ti = tarfile.TarInfo(n)
                     ti.size = len(data)
                     tf.addfile(ti, io.BytesIO(data))
@@ -307,6 +363,26 @@ def archive_members():
                                 {"dispatches (extractor of get_extractor(basename), path)": want},
                                 {"dispatches": list(spies.calls), "exception": repr(exc) if exc else None},
                                 "archive_extractor.py::read_archive")
+                # what a member CONTAINS decides nothing: content signatures of the routed families x routable / unroutable names
+                for sig, content in SIGNATURES.items():
+                    for n in ("docs/a.txt", "b.pdf", "c.docx", "d.weird", "noext", "e.html", "F.RTF", "g.bin"):
+                        del spies.calls[:]
+                        _clear_caches()
+                        apath = f"bundle.{kind}"
+                        exc = None
+                        try:
+                            list(read_archive(build(kind, [n], content), apath))
+                        except Exception as e:  # noqa
+                            exc = e
+                        b = os.path.basename(n)
+                        skip = b.startswith(".") or n.startswith("__MACOSX/") or not r.is_supported_file(b) or b.lower().endswith(nested)
+                        want = [] if skip else [(_label(b), f"{apath}!/{n}")]
+                        if exc is not None or spies.calls != want:
+                            return ({"archive": kind, "members": [n], "member data starts with": f"{sig} signature {content[:16]!r}", "archive_path": apath,
+                                     "mimetypes": cname},
+                                    {"dispatches (extractor of get_extractor(basename), path)": want},
+                                    {"dispatches": list(spies.calls), "exception": repr(exc) if exc else None},
+                                    "archive_extractor.py::read_archive")
                 # order / interference between members: the full archive once more, strictly
                 del spies.calls[:]
                 _clear_caches()
@@ -342,7 +418,44 @@ def attachment_dispatch():
     stems = ["report", "ATT00001", "a b", "x.y"]
     exts = sorted(set(r._EXTRACTOR_REGISTRY) | set(r._EXTENSION_ALIASES)) + ["tar.gz", "bin", "xyz123", ""]
     names = [f"{stems[i % len(stems)]}.{e}" if e else stems[i % len(stems)] for i, e in enumerate(exts)] + ["EXPORT.CSV", "Page.Html"]
-    mimetypes.init()
+    bad = None
+    for cname, setup in [c for c in configs() if c[0] in ("default", "empty")] + [("mime-cross", _mime_cross)]:
+        setup()
+        bad = _attachment_dispatch_under(cname, r, names, mimes)
+        mimetypes.init()
+        if bad:
+            return bad
+    return None
+
+
+def _mime_cross():
+    """a host MIME database (fresh) in which every type of the library's table is registered -- first -- under the extension of
+    a DIFFERENT supported format: anything that asks the host database which extension belongs to a declared type is misled,
+    the documented dispatch (file name, else the library's own table) is not"""
+    from sharepoint2text.parsing.mime_types import MIME_TYPE_MAPPING
+    r = router()
+    for name, setup in configs():
+        if name == "empty":
+            setup()
+    regs = sorted(r._EXTRACTOR_REGISTRY)
+    for k in sorted(MIME_TYPE_MAPPING):
+        ft = MIME_TYPE_MAPPING[k]
+        own = r._EXTRACTOR_REGISTRY.get(ft)
+        i = regs.index(ft) if ft in regs else 0
+        for step in range(1, len(regs)):
+            other = regs[(i + step) % len(regs)]
+            if r._EXTRACTOR_REGISTRY[other] != own:
+                mimetypes.add_type(k, "." + other)
+                break
+
+
+def _attachment_dispatch_under(cname, r, names, mimes):
+    import io
+    from sharepoint2text.parsing.extractors.data_types import EmailAddress, EmailAttachment, EmailContent
+    from sharepoint2text.parsing.mime_types import MIME_TYPE_MAPPING, is_supported_mime_type
+    if cname != "default":
+        # the searches that depend on the host database: names the router cannot route x every declared type
+        names = ["invoice", "ATT00001", "x.bin", "scan.xyz123", "report."] + names[:6]
     spies = Spies()
     try:
         def expected(fn, mt, flag):
@@ -357,9 +470,9 @@ def attachment_dispatch():
                 lab = f"{mod}.{f}"
             return [(lab, fn)]
 
-        def run(seq):
+        def run(seq, data=b"0123456789"):
             del spies.calls[:]
-            atts = [EmailAttachment(filename=fn, mime_type=mt, data=io.BytesIO(b"0123456789"), is_supported_mime_type=flag) for (fn, mt, flag) in seq]
+            atts = [EmailAttachment(filename=fn, mime_type=mt, data=io.BytesIO(data), is_supported_mime_type=flag) for (fn, mt, flag) in seq]
             c = EmailContent(from_email=EmailAddress(), attachments=atts)
             exc = None
             try:
@@ -368,7 +481,8 @@ def attachment_dispatch():
                 exc = e
             want = [x for a_ in seq for x in expected(*a_)]
             if exc is not None or spies.calls != want:
-                return ({"attachments (filename, declared mime_type, is_supported_mime_type)": [list(x) for x in seq], "mimetypes": "default"},
+                return ({"attachments (filename, declared mime_type, is_supported_mime_type)": [list(x) for x in seq], "attachment data starts with": repr(data[:16]),
+                         "mimetypes": cname + (f": guess_extension({seq[0][1]!r}) = {mimetypes.guess_extension(seq[0][1])!r}" if cname == "mime-cross" else "")},
                         {"extractor calls (get_extractor(filename), else registry entry of the MIME type; name passed)": want},
                         {"extractor calls": list(spies.calls), "exception": repr(exc) if exc else None},
                         "data_types.py::EmailContent.iterate_supported_attachments")
@@ -380,6 +494,15 @@ def attachment_dispatch():
             bad = run([a_])
             if bad:
                 return bad
+        # what the attachment CONTAINS decides nothing: content signatures of the routed families x names the router cannot route
+        # (and two it can) x declared types (generic, matching, contradicting, none)
+        blind = [fn for fn in ["invoice", "ATT00001", "x.bin", "scan.xyz123", "report."] if _label(fn) is None] + ["notes.txt", "Scan.PDF"]
+        for kind, data in SIGNATURES.items():
+            for fn in blind:
+                for mt in ("application/octet-stream", "application/pdf", "text/plain", "application/zip", ""):
+                    bad = run([(fn, mt, True)], data) or run([(fn, mt, bool(is_supported_mime_type(mt)))], data)
+                    if bad:
+                        return bad
         # state must not leak between attachments: pairs sharing a declared type with differently routed names, both orders
         probe = [("export.csv", "application/vnd.ms-excel", True), ("book.xls", "application/vnd.ms-excel", True), ("noext", "application/vnd.ms-excel", True),
                  ("page.html", "text/plain", True), ("a.txt", "text/plain", True), ("report.docx", "application/zip", True), ("b.zip", "application/zip", True)]
@@ -478,9 +601,68 @@ def _site_checks(req):
     return None
 
 
+SIGNATURES = {
+    "pdf": b"%PDF-1.4\n%\xe2\xe3\xcf\xd3\n", "rtf": b"{\\rtf1\\ansi hello}", "7z": b"7z\xbc\xaf\x27\x1c\x00\x04", "zip": b"PK\x03\x04\x14\x00",
+    "empty-zip": b"PK\x05\x06" + b"\x00" * 18, "ole2": b"\xd0\xcf\x11\xe0\xa1\xb1\x1a\xe1" + b"\x00" * 24, "gzip": b"\x1f\x8b\x08\x00", "bz2": b"BZh91AY",
+    "xz": b"\xfd7zXZ\x00", "html": b"<!DOCTYPE html><html><body>x</body></html>", "xml": b"<?xml version='1.0'?><a/>", "json": b'{"a": 1}',
+    "eml": b"From: a@x.org\nSubject: s\n\nbody\n", "mbox": b"From a@x.org Mon Jan  1 00:00:00 2024\nSubject: s\n\nb\n", "text": b"plain words\n",
+    "png": b"\x89PNG\r\n\x1a\n", "empty": b"",
+}
+
+
+def read_file_routing():
+    """read_file(p) runs exactly the extractor get_extractor(str(Path(p))) returns, with that path, and raises the
+    format-not-supported error exactly when get_extractor does -- whatever the file CONTAINS (content signatures of every
+    routed family) and whatever its name looks like (no suffix, trailing dot, dot file, unknown / known / upper-case suffix)."""
+    import os, tempfile
+    from pathlib import Path
+    import sharepoint2text
+    from sharepoint2text.parsing.exceptions import ExtractionFileFormatNotSupportedError
+    r = router()
+    names = ["noext", "report.", ".pdf", ".hidden", "item-01F3", "x.unknownext", "x.bin", "x.txt", "X.PDF", "y.rtf", "z.7z", "a.tar.gz", "b.docx", "c.weird"]
+    # a routable name wrapped in something the router does not know (backup / partial-download / numbered copies, trailing blank or
+    # dot, a routable-looking stem) and extension spellings that only a different caseless mapping would accept
+    names += ["report.pdf.bak", "notes.txt.1", "deck.pptx.download", "scan.pdf~", "page.html.part", "memo.docx ", "SHEET.XLSX.", "pdf", "archive.zip.tmp"]
+    names += [f"u.{v}" for e in ("pdf", "xls", "msg") for v in _fold_variants(e)]
+    for cname, setup in configs():
+        if cname in ("mime-table", "mime-variants"):
+            continue
+        setup()
+        spies = Spies()
+        try:
+            with tempfile.TemporaryDirectory() as d:
+                for kind, data in SIGNATURES.items():
+                    for n in names:
+                        p = os.path.join(d, n)
+                        with open(p, "wb") as fh:
+                            fh.write(data)
+                        sp = str(Path(p))
+                        want_label = _label(sp)
+                        del spies.calls[:]
+                        exc = None
+                        try:
+                            list(sharepoint2text.read_file(p))
+                        except Exception as e:  # noqa
+                            exc = e
+                        if want_label is None:
+                            ok = isinstance(exc, ExtractionFileFormatNotSupportedError) and not spies.calls
+                            want = "raises ExtractionFileFormatNotSupportedError, no extractor runs (get_extractor raises for this path)"
+                        else:
+                            ok = exc is None and spies.calls == [(want_label, sp)]
+                            want = f"one call of {want_label} with path {sp!r}"
+                        os.unlink(p)
+                        if not ok:
+                            return ({"file name": n, "content starts with": kind + " signature " + repr(data[:16]), "mimetypes": cname},
+                                    want, f"extractor calls {list(spies.calls)}, exception {exc!r}")
+        finally:
+            spies.close()
+            mimetypes.init()
+    return None
+
+
 def find(req):
     r = router()
-    rf = read_file_dispatch()
+    rf = read_file_dispatch() or read_file_routing()
     if rf is not None:
         return {"reproduced": True, "target": "sharepoint2text/__init__.py::read_file", "inputs": rf[0], "expected": rf[1], "observed": rf[2]}
     oid = (req.get("obligation") or "") + " " + (req.get("function") or "")
